@@ -19,8 +19,10 @@ from ..common import call, MachineryError
 from pmutt import constants as pc
 
 MOLS = {
-    'BensonGA': ['CC', 'CCC', 'CCCCCC', 'C=C', 'CC=O', 'CO', 'CCO', 'c1ccccc1', 'C1CCCCC1',
-                 'CC(C)C', 'C#C', 'OCCO', 'CC(=O)O', '[CH3]', 'C[CH2]', 'C=CC=C', 'COC',
+    # bracket atoms carrying their hydrogens explicitly come first: the elemental-entropy flag must count
+    # every hydrogen of the formula however it was written
+    'BensonGA': ['CC[C@H](C)O', '[CH3][CH2]CCCC', 'C[CH2]', 'CC', 'CCC', 'CCCCCC', 'C=C', 'CC=O', 'CO', 'CCO', 'c1ccccc1', 'C1CCCCC1',
+                 'CC(C)C', 'C#C', 'OCCO', 'CC(=O)O', '[CH3]', 'C=CC=C', 'COC',
                  'CC(C)(C)C', 'CCN', 'Cc1ccccc1'],
     'GRWSurface2018': ['C([Pt])C', 'C(=O)([Pt])O', 'C([Pt])([Pt])C', 'OC([Pt])C', 'C(C)([Pt])([Pt])[Pt]',
                        'CC([Pt])O', 'OCC([Pt])O', 'C([Pt])([Pt])=O', 'CC', 'CO'],
@@ -177,7 +179,7 @@ def run(ctx):
     units = el.ENERGY_UNITS if thorough else el.ENERGY_UNITS[::3] + ['kcal/mol', 'eV']
     libs = list(MOLS) if thorough else ['BensonGA', 'GRWSurface2018', 'XieGA2022']
     for name in libs:
-        mols = MOLS[name] if thorough else MOLS[name][:8]
+        mols = MOLS[name] if thorough else MOLS[name][:9]
         _session(ctx, name, mols, el.ENERGY_UNITS if name == 'BensonGA' else units, rng_, report)
     _groups(ctx, units, report)
     ctx.sample({'library': 'BensonGA', 'molecule': 'CCO', 'units': el.ENERGY_UNITS[:4]})
